@@ -200,7 +200,8 @@ func C14(t *testing.T, ch *choice.Source, opt harness.Options, env *Env) harness
 				if wgSize > 1024 {
 					wgSize = 1024
 				}
-				co, l, err := kasm.WaitCount(wgSize)
+				late := (c.NumWG + c.NWf) % 3
+				co, l, err := kasm.WaitCount(wgSize, late)
 				if err != nil {
 					harness.Bug("kasm: %v", err)
 				}
@@ -222,8 +223,11 @@ func C14(t *testing.T, ch *choice.Source, opt harness.Options, env *Env) harness
 				d.MemCopyD2H(ctx, got, dOut)
 				for g := 0; g < total; g++ {
 					want := in[g]*5 + in[g+total] + k
+					if late > 0 {
+						want += uint32(total)
+					}
 					if got[g] != want {
-						fail("R3", "waitcnt-value-wrong", "work-item %d: out=%#x, expected %#x = in[g]*5 + in[g+N] + K (a dependant ran before its load returned: sentinel 0xdead00/0xbeef00 or K missing)", g, got[g], want)
+						fail("R3", "waitcnt-value-wrong", "work-item %d: out=%#x, expected %#x = in[g]*5 + in[g+N] + K (+ N loaded late, variant %d) (a dependant ran before its load returned: sentinel 0xdead00/0xbeef00/0xc0de00 or K missing)", g, got[g], want, late)
 						break
 					}
 				}
